@@ -46,8 +46,8 @@ profile("C10", tx=dict(edit=3, query=1, derive_edit=8, relabel=1, react=1, persi
 profile("C11", tx=dict(edit=3, query=2, relabel=8, twin=1, derive_edit=1, algebra=1, large=0.1, build=1))
 profile("C01", tx=dict(edit=4, query=1, twin=8, relabel=1, derive_edit=1, large=0.15, build=2), max_atoms=(1, 12))
 profile("C03", tx=dict(edit=4, query=2, twin=8, pair=1, large=0.15, build=2), max_atoms=(1, 12))
-profile("C02", tx=dict(edit=4, pair=5, mutant=6, derive_edit=2, wlpair=2, build=2), small=True, max_atoms=(2, 8))
-profile("C05", tx=dict(edit=3, enum=8, symnum=2, derive_edit=2, wlpair=2, build=2), small=True, max_atoms=(2, 13),
+profile("C02", tx=dict(edit=4, pair=5, mutant=6, derive_edit=2, wlpair=5, build=2), small=True, max_atoms=(2, 8))
+profile("C05", tx=dict(edit=3, enum=8, symnum=2, derive_edit=2, wlpair=4, build=2), small=True, max_atoms=(2, 13),
         callers=(2, 4))
 profile("C06", tx=dict(edit=3, enant=6, derive_edit=2, build=2), small=True, max_atoms=(2, 7),
         classes=("SMG", "SCRG"))
@@ -1005,7 +1005,7 @@ class Gen:
         return None
 
     def random_regular_pair(self):
-        n, k = self.rng.choice(((6, 3), (7, 4), (8, 3), (8, 4), (9, 4), (10, 3), (10, 4), (8, 5)))
+        n, k = self.rng.choice(((6, 3), (7, 4), (8, 3), (8, 4), (9, 4), (9, 4), (10, 3), (10, 4), (10, 4), (8, 5), (12, 3), (12, 3)))
         a = self.random_regular(n, k)
         b = self.random_regular(n, k)
         if a is None or b is None:
@@ -1035,29 +1035,27 @@ class Gen:
         # comparison separates those
         in_roles = kind in ("CRG", "SCRG") and n <= 7 and rng.random() < 0.5
         role = rng.choice(("add_formed_bond", "add_broken_bond", "add_fleeting_bond"))
+        rname = {"add_formed_bond": "FORMED", "add_broken_bond": "BROKEN", "add_fleeting_bond": "FLEETING"}[role]
         for bonds in (ba, bb):
             s = self.slot_id()
             slots.append(s)
             perm = rng.sample(ids, n)
-            yield dict(k="new", dst=s, cls=kind)
             order = list(range(n))
             rng.shuffle(order)
-            for i in order:
-                yield dict(k="add_atom", s=s, a=perm[i], t=z, kw={})
             bl = list(bonds)
+            marked = set()
             if in_roles:
                 marked = {frozenset(b) for b in bonds}
                 bl = [(x, y) for x in range(n) for y in range(x + 1, n)]
             rng.shuffle(bl)
-            for x, y in bl:
-                k = role if in_roles and frozenset((x, y)) in marked else "add_bond"
-                yield dict(k=k, s=s, a=perm[x], b=perm[y], kw={})
+            yield dict(k="spec", dst=s, cls=kind, atoms=[[perm[i], z] for i in order],
+                       bonds=[[perm[x], perm[y], rname if frozenset((x, y)) in marked else None] for x, y in bl])
         a, b = slots
         if self.w.graph(a) is None or self.w.graph(b) is None:
             return
         if rng.random() < 0.5:
             a, b = b, a
-        yield dict(k="probe_pair", s1=a, s2=b)
+        yield dict(k="probe_pair", s1=a, s2=b, variants=rng.choice((0, 2, 4, 6)), seed=rng.randrange(2 ** 31))
         if kind == "SMG":
             # regular, not vertex transitive: the symmetry number must still be exact
             yield dict(k="symnum", s=a)
